@@ -83,6 +83,14 @@ func (f *Frame) invariants(li *loopInfo, st *State, env *loopEnv, positive bool,
 		}
 	}
 	lc := f.loopContract(li)
+	if f.parent == nil && len(f.autoInv) > 0 {
+		merged := &LoopContract{Invariants: append([]Clause{}, f.autoInv...)}
+		if lc != nil {
+			merged.Invariants = append(merged.Invariants, lc.Invariants...)
+			merged.Wit, merged.WitParam = lc.Wit, lc.WitParam
+		}
+		lc = merged
+	}
 	if lc == nil {
 		return
 	}
